@@ -402,7 +402,7 @@ def gen_b_exhaustive(tier):
     two = [[['Lw', 'U'], ['Lw', 'U']], [['Lw', 'U'], ['Lr', 'U']], [['Lr', 'U'], ['Lw', 'U']]]
     for scripts in two:
         for w in _words('01', 9 if q else 13): cs.append(b_case(scripts, w))
-        R = range(0, 7) if q else range(0, 11)
+        R = range(0, 6) if q else range(0, 11)
         for a in R:
             for b in R:
                 for c in R:
@@ -412,15 +412,16 @@ def gen_b_exhaustive(tier):
     # timed locker against a holder that lets the clock pass its deadline (entry 3 = the timer of participant 1)
     for scripts in ([['Lw', 'A', 'U'], ['Lw100', 'U']], [['Lw', 'A', 'U'], ['Lr100', 'U']], [['Lr', 'A', 'U'], ['Lw200', 'U']],
                     [['Lw', 'A', 'U'], ['Lw0', 'U']]):
-        for w in _words('013', 6 if q else 9): cs.append(b_case(scripts, w))
+        for w in _words('013', 5 if q else 8):
+            cs.append(b_case(scripts, w))
+            cs.append(b_case(scripts, '0111110' + w))       # p1 parked, the clock has passed its deadline: timer against unlock()
     # two waiters behind a writer (both cvs); two writers and a reader
     for scripts in ([['Lw', 'U'], ['Lr', 'U'], ['Lr', 'U']], [['Lw', 'U'], ['Lw', 'U'], ['Lr', 'U']]):
         for w in _words('012', 6 if q else 8): cs.append(b_case(scripts, w))
     # downgrade: W hold, unlock, re-lock R; a timed writer and a reader parked behind the W hold; the writer's timer = entry 4
     scripts = [['Lw', 'U', 'Lr', 'A', 'U'], ['Lw100', 'U'], ['Lr', 'U']]
-    for w in _words('0124', 5 if q else 7):
-        cs.append(b_case(scripts, w))
-        cs.append(b_case(scripts, '0' + '1' * 6 + '2' * 9 + w))      # both parked first, then every word
+    for w in _words('0124', 5 if q else 7): cs.append(b_case(scripts, w))
+    for w in _words('0124', 4 if q else 7): cs.append(b_case(scripts, '0' + '1' * 6 + '2' * 9 + w))      # both parked first, then every word
     return cs
 
 
@@ -846,7 +847,7 @@ class Check(DiffCheck):
             cs.append(gen_q_random(rng))
         # E3 on the BLOCKING path of qrwlock (do_lock / try_wake / cv_unique / cv_shared between OS threads)
         cs += gen_b_exhaustive(tier)
-        for i in range(2000 if tier == 'quick' else 60000):
+        for i in range(1500 if tier == 'quick' else 60000):
             cs.append(gen_b_random(rng))
         return list(dict.fromkeys(cs))
 
